@@ -25,7 +25,7 @@ theorem intname_not_bool (t : String) (h : isIntName t = true) : (t != "bool") =
   · simpa using hb
 
 mutual
-theorem fieldClass_ok (vr : Bool) : ∀ (b : Bool) (ch : Node), NodeWF ch = true → fieldClass vr b ch = none → EmitOK ch = true
+theorem fieldClass_ok (r : EmitRules) : ∀ (b : Bool) (ch : Node), NodeWF ch = true → fieldClass r b ch = none → EmitOK ch = true
   | b, .basic i, hwf, h => by
     unfold fieldClass at h
     simp only [EmitOK]
@@ -45,37 +45,37 @@ theorem fieldClass_ok (vr : Bool) : ∀ (b : Bool) (ch : Node), NodeWF ch = true
   | b, .struct i chld, hwf, h => by
     unfold fieldClass at h
     simp only [EmitOK]
-    exact fieldsClass_ok vr (vr && !i.ptr) chld (by simpa [NodeWF] using hwf) h
+    exact fieldsClass_ok r (r.valueStruct && !i.ptr) chld (by simpa [NodeWF] using hwf) h
   | b, .slice i e, hwf, h => by
     unfold fieldClass at h
     simp only [EmitOK]
     by_cases hb : (i.typn == "[]byte") = true
     · simp [hb]
     · simp only [hb, Bool.false_eq_true, if_false] at h
-      have := elemClass_ok vr e (by simpa [NodeWF] using hwf) h
+      have := elemClass_ok r e (by simpa [NodeWF] using hwf) h
       simp [this.1, this.2]
   | b, .map i k v, hwf, h => by
     unfold fieldClass at h
     simp only [NodeWF, Bool.and_eq_true] at hwf
     simp only [EmitOK]
-    cases hk : keyClass k true with
+    cases hk : keyClass r k true with
     | some c => simp [hk] at h
     | none =>
       simp only [hk] at h
-      have hv := valClass_ok vr v hwf.2 h
-      have hkk := keyClass_ok k true hwf.1.1 hwf.1.2 hk
+      have hv := valClass_ok r v hwf.2 h
+      have hkk := keyClass_ok r k true hwf.1.1 hwf.1.2 hk
       simp [hkk, hv.1, hv.2]
-theorem fieldsClass_ok (vr : Bool) : ∀ (b : Bool) (chld : List Node), NodeWFs chld = true → fieldsClass vr b chld = none → EmitOKs chld = true
+theorem fieldsClass_ok (r : EmitRules) : ∀ (b : Bool) (chld : List Node), NodeWFs chld = true → fieldsClass r b chld = none → EmitOKs chld = true
   | _, [], _, _ => rfl
   | b, ch :: rest, hwf, h => by
     unfold fieldsClass at h
     simp only [NodeWFs, Bool.and_eq_true] at hwf
-    cases hc : fieldClass vr b ch with
+    cases hc : fieldClass r b ch with
     | some c => simp [hc] at h
     | none =>
       simp only [hc] at h
-      simp [EmitOKs, fieldClass_ok vr b ch hwf.1 hc, fieldsClass_ok vr b rest hwf.2 h]
-theorem elemClass_ok (vr : Bool) : ∀ (e : Node), NodeWF e = true → elemClass vr e = none → EmitOK e = true ∧ e.isBytes = false
+      simp [EmitOKs, fieldClass_ok r b ch hwf.1 hc, fieldsClass_ok r b rest hwf.2 h]
+theorem elemClass_ok (r : EmitRules) : ∀ (e : Node), NodeWF e = true → elemClass r e = none → EmitOK e = true ∧ e.isBytes = false
   | .basic i, hwf, h => by
     unfold elemClass at h
     by_cases hb : isBuiltinName i.typn = true
@@ -83,14 +83,14 @@ theorem elemClass_ok (vr : Bool) : ∀ (e : Node), NodeWF e = true → elemClass
     · simp [hb] at h
   | .struct i chld, hwf, h => by
     unfold elemClass at h
-    exact ⟨by simpa [EmitOK] using fieldsClass_ok vr (vr && !i.ptr) chld (by simpa [NodeWF] using hwf) h, rfl⟩
+    exact ⟨by simpa [EmitOK] using fieldsClass_ok r (r.valueStruct && !i.ptr) chld (by simpa [NodeWF] using hwf) h, rfl⟩
   | .slice i e, _, h => by
     unfold elemClass at h
     split at h <;> cases h
   | .map _ _ _, _, h => by
     unfold elemClass at h
     cases h
-theorem valClass_ok (vr : Bool) : ∀ (v : Node), NodeWF v = true → valClass vr v = none → EmitOK v = true ∧ v.isBytes = false
+theorem valClass_ok (r : EmitRules) : ∀ (v : Node), NodeWF v = true → valClass r v = none → EmitOK v = true ∧ v.isBytes = false
   | .basic i, hwf, h => by
     unfold valClass at h
     by_cases hb : isBuiltinName i.typn = true
@@ -98,7 +98,7 @@ theorem valClass_ok (vr : Bool) : ∀ (v : Node), NodeWF v = true → valClass v
     · simp [hb] at h
   | .struct i chld, hwf, h => by
     unfold valClass at h
-    exact ⟨by simpa [EmitOK] using fieldsClass_ok vr (vr && !i.ptr) chld (by simpa [NodeWF] using hwf) h, rfl⟩
+    exact ⟨by simpa [EmitOK] using fieldsClass_ok r (r.valueStruct && !i.ptr) chld (by simpa [NodeWF] using hwf) h, rfl⟩
   | .slice i e, hwf, h => by
     unfold valClass at h
     by_cases hb : (i.typn == "[]byte") = true
@@ -122,7 +122,7 @@ theorem valClass_ok (vr : Bool) : ∀ (v : Node), NodeWF v = true → valClass v
     by_cases hp : i.ptr = true
     · simp [hp] at h
     · simp only [hp, Bool.false_eq_true, if_false] at h
-      cases hk : keyClass k false with
+      cases hk : keyClass r k false with
       | some c => simp [hk] at h
       | none =>
         simp only [hk] at h
@@ -132,10 +132,10 @@ theorem valClass_ok (vr : Bool) : ∀ (v : Node), NodeWF v = true → valClass v
           by_cases hbe : isBuiltinName vi.typn = true
           · refine ⟨?_, rfl⟩
             simp only [EmitOK, Node.isBytes, Bool.not_false, Bool.and_true, Bool.and_eq_true]
-            exact ⟨keyClass_ok k false hwf.1.1 hwf.1.2 hk, builtin_bool_spelled vi hwf.2 hbe⟩
+            exact ⟨keyClass_ok r k false hwf.1.1 hwf.1.2 hk, builtin_bool_spelled vi hwf.2 hbe⟩
           · simp [hbe] at h
         | _ => simp at h
-theorem keyClass_ok : ∀ (k : Node) (looped : Bool), k.isBasicTyp = true → NodeWF k = true → keyClass k looped = none → EmitOK k = true
+theorem keyClass_ok (r : EmitRules) : ∀ (k : Node) (looped : Bool), k.isBasicTyp = true → NodeWF k = true → keyClass r k looped = none → EmitOK k = true
   | .basic i, looped, _, hwf, h => by
     unfold keyClass at h
     by_cases hb : isBuiltinName i.typn = true
@@ -147,9 +147,9 @@ theorem keyClass_ok : ∀ (k : Node) (looped : Bool), k.isBasicTyp = true → No
 end
 
 /-- A tree the compilability model accepts meets the structural hypothesis of the compare/length theorems. -/
-theorem uncompilableShape_of_uncompilable (root : Node) (h : uncompilable root = none) : uncompilableShape false root = none := by
+theorem uncompilableShape_of_uncompilable (root : Node) (h : uncompilable root = none) : uncompilableShape EmitRules.current root = none := by
   unfold uncompilable uncompilableWith at h
-  cases hs : uncompilableShape false root with
+  cases hs : uncompilableShape EmitRules.current root with
   | none => rfl
   | some c => simp [hs] at h
 
@@ -160,19 +160,19 @@ theorem compilable_EmitOK (root : Node) (hwf : NodeWF root = true) (h0 : uncompi
   | basic i => simp [uncompilableShape] at h
   | struct i chld =>
     simp only [uncompilableShape] at h
-    simpa [EmitOK] using fieldsClass_ok false false chld (by simpa [NodeWF] using hwf) h
+    simpa [EmitOK] using fieldsClass_ok EmitRules.current false chld (by simpa [NodeWF] using hwf) h
   | slice i e =>
     simp only [uncompilableShape] at h
-    have := elemClass_ok false e (by simpa [NodeWF] using hwf) h
+    have := elemClass_ok EmitRules.current e (by simpa [NodeWF] using hwf) h
     simp [EmitOK, this.1, this.2]
   | map i k v =>
     simp only [uncompilableShape] at h
     simp only [NodeWF, Bool.and_eq_true] at hwf
-    cases hk : keyClass k true with
+    cases hk : keyClass EmitRules.current k true with
     | some c => simp [hk] at h
     | none =>
       simp only [hk] at h
-      have hv := valClass_ok false v hwf.2 h
-      simp [EmitOK, keyClass_ok k true hwf.1.1 hwf.1.2 hk, hv.1, hv.2]
+      have hv := valClass_ok EmitRules.current v hwf.2 h
+      simp [EmitOK, keyClass_ok EmitRules.current k true hwf.1.1 hwf.1.2 hk, hv.1, hv.2]
 
 end Inspector
